@@ -694,7 +694,7 @@ func c08Shrink(in []int64) [][]int64 {
 }
 
 func init() {
-	Register(&Prop{ID: "C08", Num: 8, SpecMode: "rel", Gen: c08Gen, Impl: c08Impl, Oracle: stdOracle,
+	Register(&Prop{ID: "C08", Pure: true, Num: 8, SpecMode: "rel", Gen: c08Gen, Impl: c08Impl, Oracle: stdOracle,
 		Shrink: c08Shrink, Describe: c08Describe,
 		Rule: "length helpers on 0..200 and random lengths; AESCBCEncrypt/AESCBCDecrypt/AESGCMEncrypt/AESGCMDecrypt with keys of 16/24/32 bytes, every message length 0..80 (thorough 0..200), three memory layouts (dst before src, src before dst, same start = documented in-place use) inside one backing array whose whole final content is compared; un-padding inside CBC decryption for every last-byte value in {0..18,32,255} x {all pad bytes right, one pad byte wrong at each position, random}; misuse (bad key sizes, IV/nonce lengths, short/long dst, inexact overlap, illegal ciphertext lengths); every single-bit corruption of ciphertext, tag, nonce, additional data of GCM messages (must be rejected); PKCS7Padding/UnPadding exhaustively on short strings over {0,1,2,3,16,17,255} x block sizes {-1,0,1,2,3,4,8,16,17,255,256,300} and randomly (round trips, damaged paddings, block sizes > 255, PKCS5). The model computes with the real AES/GCM through the oracle table; the judge uses cipher.NewCBCEncrypter/Decrypter and GCM Seal/Open of the standard library as the specification. distinct = distinct case; non-trivial = the case gets past the first argument guard (non-empty data / positive block size / any AES case)"})
 }
